@@ -12,6 +12,9 @@ noncomputable instance : Num ℝ where
   log := Real.log
   sqrt := Real.sqrt
   rpow := Real.rpow
+  log10 := fun x => Real.log x / Real.log 10
+  ceil := fun x => (Int.ceil x : ℝ)
+  floor := fun x => (Int.floor x : ℝ)
   dlt := fun _ _ => Classical.propDecidable _
   dle := fun _ _ => Classical.propDecidable _
 
@@ -20,6 +23,7 @@ noncomputable instance : Num ℝ where
 @[simp] theorem Transc.exp_real (x : ℝ) : Transc.exp x = Real.exp x := rfl
 @[simp] theorem Transc.log_real (x : ℝ) : Transc.log x = Real.log x := rfl
 @[simp] theorem Transc.sqrt_real (x : ℝ) : Transc.sqrt x = Real.sqrt x := rfl
+@[simp] theorem Transc.log10_real (x : ℝ) : Transc.log10 x = Real.log x / Real.log 10 := rfl
 @[simp] theorem Num.sq_real (x : ℝ) : Num.sq x = x ^ 2 := by simp [Num.sq, pow_two]
 @[simp] theorem Num.powN_real (x : ℝ) : ∀ n : ℕ, Num.powN x n = x ^ n
   | 0 => by simp [Num.powN]
